@@ -31,23 +31,24 @@ const RIDGE_ITER: u32 = 20_000;
 /// budget of the f32 fits
 const F32_ITER: u32 = 20_000;
 /// float slack of objective comparisons, relative to `objective_scale`
-const SLACK_F64: f64 = 1e-9;
-const SLACK_F32: f64 = 2e-3;
+const SLACK_F64: f64 = 1e-10;
+const SLACK_F32: f64 = 1e-4;
 /// drift allowance of linfa's incrementally updated residual in the exact-zero rule (relative)
-const DRIFT_F64: f64 = 1e-9;
-/// a column counts as centred when |sum_i x_ij| <= CENTRED * sqrt(n) * ||x_j||
+const DRIFT_F64: f64 = 1e-10;
+/// a column counts as centred when |sum_i x_ij| <= max(CENTRED, 16 eps) * sqrt(n) * ||x_j||
 const CENTRED: f64 = 1e-9;
 /// two-budget stationarity: scaled coefficient change allowed between the two fits
 const STATIONARY: f64 = 1e-12;
 /// OLS orthogonality: |x_j^T r| <= ORTH_EPS * eps * ||x_j|| * M
-const ORTH_EPS: f64 = 4000.0;
+const ORTH_EPS: f64 = 1000.0;
 /// OLS agreement with the reference solve: AGREE_EPS * eps * cond * M
-const AGREE_EPS: f64 = 1000.0;
+const AGREE_EPS: f64 = 500.0;
 /// designs whose equilibrated Gram condition number exceeds this are not judged (OLS)
 const COND_MAX: f64 = 1e7;
 /// number of random perturbations per fit
 const N_PERT: usize = 200;
 
+const KNOWN_NAN_SIG: &str = "enet:non-finite-output:multitask:l1-threshold-0:feature-orthogonal-to-targets";
 const KNOWN_INTERCEPT_SIG: &str = "enet:intercept-not-jointly-optimal:nonzero-column-means:intercept=mean(y)";
 
 fn eps_of(f32_: bool) -> f64 {
@@ -67,11 +68,11 @@ struct XInfo {
     any_uncentred: bool,
 }
 
-fn describe_x(x: &Mat, n: usize, p: usize, obs: &mut Obs) -> XInfo {
+fn describe_x(x: &Mat, n: usize, p: usize, eps: f64, obs: &mut Obs) -> XInfo {
     let norms = col_norms(x, p);
     let means = col_means(x, p);
     let sq = (n as f64).sqrt();
-    let centred: Vec<bool> = (0..p).map(|j| (means[j] * n as f64).abs() <= CENTRED * sq * norms[j]).collect();
+    let centred: Vec<bool> = (0..p).map(|j| (means[j] * n as f64).abs() <= CENTRED.max(16.0 * eps) * sq * norms[j]).collect();
     let any_uncentred = centred.iter().any(|c| !c);
     obs.class_if(!any_uncentred, "x_all_columns_centred");
     obs.class_if(any_uncentred, "x_some_column_uncentred");
@@ -204,7 +205,7 @@ fn check_enet(c: &EnetCase, obs: &mut Obs) {
         return;
     }
     let nf = n as f64;
-    let xi = describe_x(&c.x, n, p, obs);
+    let xi = describe_x(&c.x, n, p, eps_of(c.f32), obs);
     obs.class_if(c.multi, "estimator_multitask");
     obs.class_if(!c.multi, "estimator_single_task");
     obs.class_if(t == 1, "targets_1");
@@ -223,6 +224,19 @@ fn check_enet(c: &EnetCase, obs: &mut Obs) {
     obs.class_if(c.tol <= 1e-11, "tol_1e-12");
     obs.class_if(c.tol > 1e-11 && c.tol <= 1e-7, "tol_1e-8");
     obs.class_if(c.tol > 1e-7, "tol_ge_1e-4");
+
+    {
+        let mut any = false;
+        for j in 0..p {
+            if xi.norms[j] > 0.0 {
+                any |= (0..t).all(|cc| {
+                    let m = if c.intercept { c.y.iter().map(|row| row[cc]).sum::<f64>() / nf } else { 0.0 };
+                    (0..n).map(|i| c.x[i][j] * (c.y[i][cc] - m)).sum::<f64>() == 0.0
+                });
+            }
+        }
+        obs.class_if(any, "x_feature_exactly_orthogonal_to_targets");
+    }
 
     let alpha = nf * c.penalty * c.l1_ratio;
     let beta = nf * c.penalty * (1.0 - c.l1_ratio);
@@ -251,12 +265,38 @@ fn check_enet(c: &EnetCase, obs: &mut Obs) {
         obs.fail("enet:output-shape", "hyperplane / intercept / prediction have the wrong shape".to_string());
         return;
     }
-    if !obs.ensure(out_finite(&out), "enet:non-finite-output", || {
-        format!(
-            "non-finite model: hyperplane {:?}, intercept {:?}, gap {}, n_steps {}",
-            out.w, out.b, out.gap, out.n_steps
-        )
-    }) {
+    if !out_finite(&out) {
+        // recognised defect: multi-task block soft threshold with l1 threshold 0 divides 0/0 when a
+        // feature is exactly orthogonal to the (partial) residual
+        let mut orth = None;
+        if c.multi && alpha == 0.0 && out.w.iter().any(|r| r.iter().any(|v| v.is_nan())) {
+            let ybar: Vec<f64> = (0..t)
+                .map(|cc| if c.intercept { c.y.iter().map(|row| row[cc]).sum::<f64>() / nf } else { 0.0 })
+                .collect();
+            for j in 0..p {
+                if xi.norms[j] > 0.0 {
+                    let mut all = true;
+                    for cc in 0..t {
+                        let d: f64 = (0..n).map(|i| c.x[i][j] * (c.y[i][cc] - ybar[cc])).sum();
+                        let yn = (0..n).map(|i| (c.y[i][cc] - ybar[cc]).powi(2)).sum::<f64>().sqrt();
+                        all &= d.abs() <= 1e-13 * xi.norms[j] * yn;
+                    }
+                    if all {
+                        orth = Some(j);
+                        break;
+                    }
+                }
+            }
+        }
+        let sig = if orth.is_some() { KNOWN_NAN_SIG } else { "enet:non-finite-output" };
+        obs.class_if(orth.is_some(), "feature_orthogonal_to_targets_l1_threshold_0_multitask");
+        obs.fail(
+            sig,
+            format!(
+                "non-finite model: hyperplane {:?}, intercept {:?}, gap {}, n_steps {} (feature exactly orthogonal to the centred targets: {:?}, l1 threshold {alpha})",
+                out.w, out.b, out.gap, out.n_steps, orth
+            ),
+        );
         return;
     }
     let (w, b) = (&out.w, &out.b[..]);
@@ -462,7 +502,7 @@ fn check_enet(c: &EnetCase, obs: &mut Obs) {
     // ---- (4) jointly in coefficients and intercept
     if c.intercept {
         let ybar: Vec<f64> = (0..t).map(|cc| c.y.iter().map(|row| row[cc]).sum::<f64>() / nf).collect();
-        let b_is_ymean = (0..t).all(|cc| (b[cc] - ybar[cc]).abs() <= 1e-12 * (ybar[cc].abs() + rms_y[cc]) + 1e-300);
+        let b_is_ymean = (0..t).all(|cc| (b[cc] - ybar[cc]).abs() <= 1e4 * eps * (ybar[cc].abs() + rms_y[cc]) + 1e-300);
         // the defect recognised as known: features with non-zero column means and intercept = mean(y)
         let sig: &str = if xi.any_uncentred && b_is_ymean {
             KNOWN_INTERCEPT_SIG
@@ -565,7 +605,7 @@ fn check_ols(c: &OlsCase, obs: &mut Obs) {
         return;
     }
     let nf = n as f64;
-    let xi = describe_x(&c.x, n, p, obs);
+    let xi = describe_x(&c.x, n, p, eps_of(c.f32), obs);
     obs.class_if(c.f32, "f32");
     obs.class_if(!c.f32, "f64");
     obs.class_if(c.intercept, "intercept_on");
